@@ -38,7 +38,20 @@ def atomic_begin(ctx, rule='C04.atomic-begin'):
     sets = [('Rm', bb, excl(lr, bb)) for bb in Rm] + [('Rp', bb, excl(lr, bb)) for bb in Rp]
     common = set.intersection(*[s for _, _, s in sets])
     ctx.stats['atomic_begin_sites'] = ['%s@%s holds %s' % (k, bf.loc(bb), sorted(s)) for k, bb, s in sets]
+    gap = None
     if common:
+        # ... under ONE acquisition: on no path from the header read to the registration is the lock given up and taken again
+        for rm in Rm:
+            fwd = bf.reach_from([rm])
+            for rp in Rp:
+                for b in sorted(fwd):
+                    if b in lr.reach and rp in bf.reach_from([b], avoid={rm}) and b not in (rm,) and not (common & excl(lr, b)) and rp != b:
+                        gap = gap or (rm, rp, b)
+    if common and gap:
+        res.append(bad(rule, '%s | registry lock released between the header read and the registration' % bf.qual,
+                       'the reader reads its header at %s and registers at %s, both under %s, but at %s on the way the lock is not held: two commits in that window release and '
+                       'overwrite the pages of the snapshot the reader has already chosen' % (bf.loc(gap[0]), bf.loc(gap[1]), sorted(common), bf.loc(gap[2])), where=bf.loc(gap[2])))
+    elif common:
         res.append(ok(rule, 'header read, registration and release decision all happen under the exclusively held lock(s) %s' % sorted(common), sites=len(sets)))
     else:
         # name the site that breaks the intersection
@@ -123,7 +136,7 @@ def run(ctx, tier):
     results = []
     results += atomic_begin(ctx)
     results += map_covers_snapshot(ctx)
-    results += ob['O1'] + ob['O2'] + ob['O3'] + ob['O4']
+    results += ob['O1'] + ob['O2'] + ob['O3'] + ob['O4'] + ob['O5']
     results += c09.writer_reads_after_lock(ctx, rule='C04.writer-snapshot')
     results += c03.sorted_registry(ctx, rule='C04.registry-discipline')
     results += c03.release_sites(ctx, rule='C04.release-site')
@@ -137,6 +150,10 @@ def run(ctx, tier):
     results += c09.snapshot_source(ctx, rule='C04.snapshot-source')
     results += c03.snapshot_fixed(ctx, rule='C04.snapshot-fixed')
     results += c03.snapshot_private(ctx, rule='C04.snapshot-private')
+    # what a transaction hands out cannot outlive it (the pages behind it are released when it ends): the signature rule of C14 over the whole public surface
+    import c14
+    from core import renamed
+    results += renamed(c14.sig_rule(ctx), 'C14', 'C04')
     # pages an open reader can still reach stay pending: only a writer's begin moves them on, and nothing else rewrites the shared list
     import c06
     results += c06.shared_freelist(ctx, rule='C04.shared-freelist')
